@@ -817,7 +817,7 @@ LEVEL_TEXT = ("Proved per table of Ports::dispatch, for ANY callbacks, any numbe
               "documented form with ANY number of address components (a#2/b#3/, x/y/, a#2/k#2:i) every callback's loc is a "
               "prefix of the full address and a leaf's loc is the full address (C04_loc_full_address), the table below a "
               "sub-tree port receives exactly what follows the matched name (C04_snip_strips_matched_name), the index handed "
-              "down is the one spelled at the '#' (C04_index_at_hash). Names with alternatives {a,b,..}: the model's matcher is C05's "
+              "down is the one spelled at the '#' (C04_index_at_hash_partial). Names with alternatives {a,b,..}: the model's matcher is C05's "
               "match_path, so every tree theorem covers them; C04_loc_full_address and C04_snip_strips_matched_name hold for alternatives "
               "without '/' and ':' (alts_plain); the pinned code hashed { {ab,cd}x, ef, gh } and put the name's text into loc "
               "(C04_alternatives_refuted, two fix: commits, C04_alternatives_repaired; example C04_alternatives_nonvacuous: "
@@ -825,4 +825,4 @@ LEVEL_TEXT = ("Proved per table of Ports::dispatch, for ANY callbacks, any numbe
 LEVEL_NOTE = ("Trusted: Coq kernel, extraction, OCaml driver, harness (run-time built Ports, re-dispatching callbacks), the hook "
               "Ports::verif_tables, generators, the Python Spec oracle. The perfect-hash search is not modelled: its output "
               "is an input. Strategy independence is stated for literal single-component names (what the library hashes); "
-              "tables with '#' or '{' names take the linear scan in both runs. C04_index_at_hash is stated for a literal prefix in front of the '#'.")
+              "tables with '#' or '{' names take the linear scan in both runs. C04_index_at_hash_partial is stated for a literal prefix in front of the '#'.")
